@@ -245,7 +245,7 @@ def compare_with_ref(obs, ref, check_dtype=True):
         if got[1] != exp[1] or got[2] != exp[2]:
             return 'values of %s: got n=%d %s expected n=%d %s' % (
                 p, got[1], _short(got[2]), exp[1], _short(exp[2]))
-        if check_dtype and got[0] != exp[0] and not (exp[1] == 0 and exp[0] == '|O'):
+        if check_dtype and got[0] != exp[0] and not (exp[1] == 0 and exp[0] in ('|O', 'ts')):
             return 'dtype of %s: got %s expected %s' % (p, got[0], exp[0])
     return None
 
